@@ -79,6 +79,9 @@ def run(prop, tier, seed, known):
             dup = lambda xs: (xs + [xs[0]]) if xs and rng.random() < 0.2 else xs
             rf = [dup(sorted(set(fr()), reverse=rng.random() < 0.5)) for _ in rt]
             ef = [dup(sorted(set(fr()), reverse=rng.random() < 0.5)) for _ in et]
+            if rng.random() < 0.35:
+                # octave errors: an estimate that repeats reference pitches one octave off scores differently with and without chroma wrapping
+                ef = [[f * rng.choice([2.0, 0.5, 1.0]) for f in rf[min(k, len(rf) - 1)]] + (fr()[:1] if rng.random() < 0.3 else []) for k in range(len(et))]
             w = rng.choice([0.25, 0.5, 1.0])
             n += 1
             try:
@@ -100,8 +103,14 @@ def run(prop, tier, seed, known):
             if any(c < t for c, t in zip(tpc, tp)) or any(t > min(a_, b_) for t, a_, b_ in zip(tp, nr, ne)):
                 fails.append('per-frame counts: raw %s chroma %s' % (tp, tpc))
             ev = M.evaluate(np.array(rt), [np.array(x) for x in rf], np.array(et), [np.array(x) for x in ef], window=w)
-            if [float(v) for v in ev.values()] != got:
-                fails.append('evaluate() differs from metrics()')
+            keys = ['Precision', 'Recall', 'Accuracy', 'Substitution Error', 'Miss Error', 'False Alarm Error', 'Total Error']
+            keys = keys + ['Chroma ' + k_ for k_ in keys]
+            if list(ev.keys()) != keys or any(float(ev[k_]) != g for k_, g in zip(keys, got)):
+                fails.append('evaluate() does not report the metrics() scores under their documented names: %s vs metrics %s' % (
+                    {k_: round(float(v), 4) for k_, v in ev.items()}, [round(g, 4) for g in got]))
+            elif abs(ev['Chroma Total Error'] - (ev['Chroma Substitution Error'] + ev['Chroma Miss Error'] + ev['Chroma False Alarm Error'])) > 1e-9 \
+                    or abs(ev['Total Error'] - (ev['Substitution Error'] + ev['Miss Error'] + ev['False Alarm Error'])) > 1e-9:
+                fails.append('evaluate(): total error is not substitution + miss + false alarm by name: %s' % {k_: round(float(v), 4) for k_, v in ev.items()})
             if len(fails) > 5:
                 break
     bounded = [dict(name='multipitch.metrics / evaluate / resample_multipitch / compute_num_true_positives vs frame-by-frame specification and the C18 identities',
